@@ -476,20 +476,6 @@ func c06r4(p *Prog, r *Reporter) {
 		r.Anchor("ecs.(*entityPool).Recycle / Get")
 		return
 	}
-	isFlagSet := func(site ssa.CallInstruction, val bool) (ssa.Value, bool) {
-		sc := site.Common().StaticCallee()
-		if sc == nil || cname(sc) != "Set" || typeName(recvType(sc)) != "bitSet" || len(site.Common().Args) != 3 {
-			return nil, false
-		}
-		if _, fld, _, ok := loadedField(site.Common().Args[0]); !ok || fld != "targetEntities" {
-			return nil, false
-		}
-		cb, ok := constBool(site.Common().Args[2])
-		if !ok || cb != val {
-			return nil, false
-		}
-		return idOf(site.Common().Args[1]), true
-	}
 	// (a) functions that obtain a table for a non-constant target and allocate rows in it
 	for _, fn := range p.Funcs {
 		var targetArg ssa.Value
@@ -546,6 +532,19 @@ func c06r4(p *Prog, r *Reporter) {
 					if originOf(c.Common().Args[0]) == cell && pr.Succs[1-trueSucc] == b {
 						guarded = true
 					}
+				}
+			}
+		}
+		// or through a helper that sets the flag of its Entity parameter under !IsZero
+		for _, site := range callsIn(fn) {
+			sc := site.Common().StaticCallee()
+			if sc == nil {
+				continue
+			}
+			if idx, ok := targetFlagSetters(p)[sc]; ok && idx < len(site.Common().Args) {
+				a := site.Common().Args[idx]
+				if originOf(a) == cell || a == cell {
+					found, guarded = true, true
 				}
 			}
 		}
@@ -709,4 +708,79 @@ func isZeroingCall(site ssa.CallInstruction) bool {
 		}
 	}
 	return false
+}
+
+var targetFlagSetterMemo map[*ssa.Function]int
+
+// targetFlagSetters: functions that set the target flag of one of their Entity parameters, guarded by !IsZero of that
+// parameter (value: the parameter's index).
+func targetFlagSetters(p *Prog) map[*ssa.Function]int {
+	if targetFlagSetterMemo != nil {
+		return targetFlagSetterMemo
+	}
+	out := map[*ssa.Function]int{}
+	for _, fn := range p.Funcs {
+		for i, pr := range fn.Params {
+			if !isEntityType(pr.Type()) {
+				continue
+			}
+			var cell ssa.Value = pr
+			norm := func(v ssa.Value) ssa.Value {
+				v = originOf(v)
+				if u, ok := v.(*ssa.UnOp); ok {
+					v = u.X
+				}
+				if al, ok := v.(*ssa.Alloc); ok {
+					if sp := spilledParam(al); sp != nil {
+						return sp
+					}
+				}
+				return v
+			}
+			found, guarded := false, false
+			for _, site := range callsIn(fn) {
+				idc, ok := isFlagSet(site, true)
+				if !ok || idc == nil {
+					continue
+				}
+				if norm(idc) != cell {
+					continue
+				}
+				found = true
+				b := site.Block()
+				for _, pb := range b.Preds {
+					atom, trueSucc, ok := ifCond(pb)
+					if !ok {
+						continue
+					}
+					if c := callOf(atom); c != nil && c.Common().StaticCallee() != nil && cname(c.Common().StaticCallee()) == "IsZero" {
+						if norm(c.Common().Args[0]) == cell && pb.Succs[1-trueSucc] == b {
+							guarded = true
+						}
+					}
+				}
+			}
+			if found && guarded {
+				out[fn] = i
+			}
+		}
+	}
+	targetFlagSetterMemo = out
+	return out
+}
+
+// isFlagSet: the call is World.targetEntities.Set(x.id, val); returns the entity x.
+func isFlagSet(site ssa.CallInstruction, val bool) (ssa.Value, bool) {
+	sc := site.Common().StaticCallee()
+	if sc == nil || cname(sc) != "Set" || typeName(recvType(sc)) != "bitSet" || len(site.Common().Args) != 3 {
+		return nil, false
+	}
+	if _, fld, _, ok := loadedField(site.Common().Args[0]); !ok || fld != "targetEntities" {
+		return nil, false
+	}
+	cb, ok := constBool(site.Common().Args[2])
+	if !ok || cb != val {
+		return nil, false
+	}
+	return idOf(site.Common().Args[1]), true
 }
